@@ -98,3 +98,7 @@ def run(ctx):
         stop_plumbing(ctx, "R06.9")
     except Skip:
         pass
+
+    # ---- R06.10 the whole-instance graceful quit is a graceful stop of every job - rules owned by C08
+    ctx.rule("R06.10", "the graceful quit path stops each job through the same graceful stop: signal and grace as given, no urgent kill behind it")
+    ctx.borrow("C08", ["R08.3", "R08.5"], "R06.10", "quit_gracefully records (signal, grace) for every argument value; each job gets stop_with_signal(signal, grace) then a normal-priority delete")
